@@ -22,6 +22,7 @@ import json
 class Space:
   reps_per_state = 1
   name = 'space'
+  divergence_is_violation = False
 
   def initials(self):
     raise NotImplementedError
@@ -82,6 +83,14 @@ def _expand(rec, item):
   w = rebuild(space, init, hist)
   got = repr(space.canon(w))
   if expect is not None and got != expect:
+    if space.divergence_is_violation:
+      # The harness shares only library-level objects (classes / schemas)
+      # between executions: a different result for the same history means an
+      # earlier execution leaked state into them.
+      rec.viol('history-replay-not-reproducible',
+               f'replaying {hist!r} from {init!r} gave {got[:300]} instead of {expect[:300]}: state leaked '
+               f'between values sharing a class/schema', dict(space=space.name, init=init, hist=list(hist)))
+      return []
     # Nondeterminism the harness does not own: hard error, never a violation.
     raise RuntimeError(f'replay divergence: {init!r} {hist!r}: {got} != {expect}')
   trace = dict(space=space.name, init=init, hist=list(hist))
